@@ -310,7 +310,7 @@ def _refs_before(img, ctx, at):
     return sum(1 for o in ctx.rm1 if o < at and o < len(img) and (img[o] & 0x80) and (img[o] & 0x7F) in _SLOT_CODES)
 
 
-def _ref_bomb(rng, base_index, shape):
+def _ref_bomb(rng, base_index, shape, plain=False):
     """Adversarial *reference* fields: objects that are small in the file but huge (DAG) or deep (chain) once the
     3.4+ reference table is followed.  Returns bytes of one tuple object holding the levels and a trigger."""
     if shape == "ref_dag":
@@ -327,7 +327,7 @@ def _ref_bomb(rng, base_index, shape):
         else:
             parts.append((b"r" + _i32(base_index + k - 1)) * width)
     last = b"r" + _i32(base_index + n - 1)
-    trigger = rng.choice(["set", "frozenset", "dict", "plain", "tuple_eq"])
+    trigger = "plain" if plain else rng.choice(["set", "frozenset", "dict", "tuple_eq"])
     if trigger == "set":
         tail = b"<" + _i32(1) + last
     elif trigger == "frozenset":
@@ -351,16 +351,20 @@ def f_nesting_bomb(rng, img, ctx):
     # reference bombs are rare on purpose: each DAG instance burns its whole CPU budget (twice: batch + isolation)
     shape = rng.weighted([("small_tuple", 180), ("tuple", 180), ("list", 180), ("dict", 180), ("set", 180),
                           ("ref_tuple", 180), ("long_digits", 180), ("code", 180), ("big_int", 120), ("ref_dag", 1),
-                          ("ref_chain", 5)])
+                          ("ref_chain", 5), ("ref_dag_plain", 120), ("ref_chain_plain", 60)])
+    # *_plain: the DAG / chain is just a value (a constant, a name, a code-object field) - nothing in the loader
+    # hashes, prints or compares it, so the unchanged tree handles it instantly; it costs nothing to try often
+    plain = shape.endswith("_plain")
+    if plain:
+        shape = shape[:-6]
     extra = {}
     if shape in ("ref_dag", "ref_chain"):
         # exact indices when the bomb replaces the whole payload (first object after the header), estimated
         # indices when it replaces an inner object
-        whole = rng.chance(1, 2)
-        hdr = 16 if n >= 16 and whole else None
+        whole = rng.chance(1, 2) and not plain
         if whole:
             hl = rng.choice([8, 12, 16])
-            bomb, extra = _ref_bomb(rng, 0, shape)
+            bomb, extra = _ref_bomb(rng, 0, shape, plain)
             out = img[:hl] + bomb
             extra.update({"whole_payload": True, "header_len": hl})
             d = {"kind": "nesting_bomb", "at": hl, "depth": extra["levels"], "shape": shape, "keep_tail": False}
@@ -371,8 +375,8 @@ def f_nesting_bomb(rng, img, ctx):
         starts = sorted(o for o in ctx.objmap if 8 <= o < n)
         if starts and img[:starts[-1]] == ctx.base[:starts[-1]]:
             at = rng.choice(starts)
-        bomb, extra = _ref_bomb(rng, _refs_before(img, ctx, at), shape)
-        how = rng.choice(["insert", "cut", "replace_object"])
+        bomb, extra = _ref_bomb(rng, _refs_before(img, ctx, at), shape, plain)
+        how = rng.choice(["insert", "cut", "replace_object", "replace_object"])
         if how == "insert":
             out = img[:at] + bomb + img[at:]
         elif how == "cut":
